@@ -17,13 +17,13 @@ CHECKS = {
  "C08": (MICRO, "Recovery script from whatever state the drawn history reached, at component level (validator-accepted parameters) and through the balancer (accepted configurations): closed and admitting within timeout + success_threshold+max_requests+1 successes; wait-for-graph deadlock / no-progress detection on state-change notifications.", "§3 C08"),
  "C09": (MICRO, "Seeded arrival histories on the fake clock (bursts of concurrent tasks, gaps around the refill period, idle hours across bucket expiry): all-pairs window bound, burst bound, full first burst, refill after idling, isolation by differential execution; at balancer level 429 + not forwarded + counted and client-key precedence.", "§3 C09"),
  "C11": (MICRO, "Seeded sequential and concurrent admin histories (2-4 actors + traffic) through the real admin mux; linearizability of the step-stamped history against a sequential multiset model (porcupine); traffic served throughout and never by a definitely removed backend; strategy switch preserves health.", "§3 C11"),
- "C12": ("deterministic simulation workload (seeded) executed by free-running goroutines under the Go race detector (happens-before analysis); schedule not seed-decided in this check", "Seeded workloads of 8-64 goroutines (traffic with faults, admin mutations, metrics/health/backends readers, health transitions, breaker, limiter, shutdown) over the real stack built with -race, every strategy and feature combination drawn; violations are race reports touching Helios frames, panics, goroutines stuck on Helios locks. Deterministic deadlock/atomicity detection is contributed by the controlled-schedule checks (C03, C07, C08, C19).", "§3 C12"),
+ "C12": ("two phases: (1) deterministic simulation workload (seeded) executed by free-running goroutines under the Go race detector (happens-before analysis; schedule not seed-decided) for data races; (2) deterministic micro-simulation of the same operation mix under the seeded cooperative scheduler with wait-for-graph deadlock detection (writer-preferring RWMutex model), panic and WaitGroup-misuse detection, replayable", "Seeded workloads of 8-64 goroutines (traffic with faults, admin mutations, metrics/health/backends readers, health transitions, breaker, limiter, shutdown) over the real stack built with -race, every strategy and feature combination drawn; violations are race reports touching Helios frames, panics, goroutines stuck on Helios locks (wait-for cycle incl. read-lock holders). Second phase, scenario lbmix: 3-10 (thorough up to 24) cooperative tasks per burst -- traffic with backend faults, admin list/add/remove/strategy, metrics/health readers, MarkBackendUnhealthy, probes, elapsed windows, Stop -- preempted at every Helios lock/atomic/go statement by the seeded scheduler; deadlock, no-progress, panic and WaitGroup misuse are violations with a replayable schedule.", "§3 C12"),
  "C14": (SYS, "Seeded exchanges through size_limit at drawn chain positions: limits 1-4096, bodies at limit-1/limit/limit+1/3x in declared and chunked framing, response bodies split into writes and network fragments, every status class incl. bodiless; byte bounds at both ends, 413 rules, and the C01 differential oracle within the limits.", "§3 C14"),
- "C15": (SYS, "Seeded exchanges through gzip at drawn chain positions: Accept-Encoding spellings, content types, sizes around min_size, compressible/incompressible payloads, pre-encoded backend responses, levels -1..9; the client's bytes decoded by the headers it received must equal the backend's body with the backend's status; compressed only if eligible, otherwise byte-identical. The 10MB cap is exercised only through the buffering-limit code path in the thorough tier's large bodies (<= 2MB): NOT at 10MB.", "§3 C15"),
+ "C15": (SYS, "Seeded exchanges through gzip at drawn chain positions: Accept-Encoding spellings, content types, sizes around min_size, compressible/incompressible payloads, pre-encoded backend responses, levels -1..9; the client's bytes decoded by the headers it received must equal the backend's body with the backend's status; compressed only if eligible, otherwise byte-identical. The 10MB buffering cap is crossed by a dedicated case in the thorough tier only (bodies of 10MB+-k through the cap's pass-through path).", "§3 C15"),
  "C13": (MICRO + " + " + SYS, "Conservation equations at every quiescent point against the harness' own tallies over every request class, sequential and concurrent (micro, exact per backend), and after fault sequences behind the real server (system: totals, classes, gauges at idle).", "§3 C13"),
  "C16": (MICRO + " + " + SYS, "Identifier middleware under concurrent generation at one frozen virtual instant (distinctness, echo, handler-sees-what-client-gets, disabled untouched) and the same invariants on every exchange of the system-level transparency runs.", "§3 C16"),
  "C19": (MICRO, "Stop() at drawn virtual instants (before first probe, mid-probe, between ticks, at a tick) and drawn interleavings with the ticker goroutine, repeated/concurrent Stop calls: bounded return, no probe after return, WaitGroup reuse (a real sync.WaitGroup panic) detected by the instrumented WaitGroup.", "§3 C19"),
- "C20": (MICRO, "The real WebSocketPool under 1-3 holder tasks, cleanup ticks and shutdown on the fake clock: exclusivity, staleness, idle bound, closure on shutdown, never closing a held connection. (Tunnel part: see DESIGN.)", "§3 C20"),
+ "C20": (MICRO, "The real WebSocketPool under 1-3 holder tasks, cleanup ticks and shutdown on the fake clock: exclusivity, staleness, idle bound, closure on shutdown, never closing a held connection. Tunnel part (scenario sysws, system simulation): an Upgrade session through every drawn plugin chain over the driver-mediated network, Connection header in five token-list spellings, binary messages 0-100KB in both directions in drawn interleavings and fragmentations, quiet periods longer than every configured timeout, either side closing: bytes equal in order, close propagated, session never cut by Helios.", "§3 C20"),
 }
 NA = {
  "C10": "pure function of (peer address, headers, configuration): no schedule, clock, fault or interleaving for a simulator to search (DESIGN.md §4)",
